@@ -898,11 +898,143 @@ def _known_loader(ctx):
     return load
 
 
+def kill_confirm(env, runs, rng, n):
+    """Really SIGKILL the driver at a seed-selected system call (strace inject, the call is not executed)
+    and compare the directory it leaves behind with the replayer's reconstruction from that run's own
+    log. A mismatch without another thread's call in flight is a tooling error."""
+    cands = []
+    for r in runs:
+        for k, e in enumerate(r.events, 1):
+            if e["sysname"] in ("openat", "write", "renameat", "unlinkat", "mkdirat"):
+                cands.append((r, k, e))
+    picks = vlib.sample(rng, cands, n)
+    ok = inconclusive = 0
+    points = []
+    for i, (r, k, e) in enumerate(picks):
+        base = os.path.join(env["work"], "kill%03d" % i)
+        d = os.path.join(base, "d")
+        os.makedirs(base)
+        tmpl = os.path.join(env["states"], r.start)
+        if os.path.isdir(tmpl):
+            shutil.copytree(tmpl, d)
+        fs = FS.load(d)
+        fs.root = d
+        st = os.path.join(base, "strace.txt")
+        p = _sh(strace_argv(st, inject=(e["sysname"], e["sysidx"])) +
+                [env["drv"], "-mode", "op", "-dir", d, "-src", env["src"], "-op", r.op, "-res", os.path.join(base, "res.json")],
+                cwd=base)
+        calls, killed = parse_strace(st)
+        if not killed:
+            # the numbering of concurrent calls differs from run to run: the chosen invocation did not occur
+            inconclusive += 1
+            continue
+        rp = Replayer(fs, base)
+        for c in calls:
+            rp.step(c)
+        real = FS.load(d)
+        real.root = d
+        inflight = sum(1 for c in calls if c[3] is None)
+        if fs.same(real):
+            ok += 1
+            points.append("%s %s: %s #%d (before %s %s)" % (r.start, r.op, e["sysname"], e["sysidx"], e["call"], e["cls"]))
+        elif inflight > 1:
+            inconclusive += 1
+        else:
+            diff = sorted(set(fs.files) ^ set(real.files)) + [x for x in fs.files if x in real.files and fs.files[x] != real.files[x]]
+            raise vlib.ToolError("SIGKILL at %s #%d of %s %s leaves a directory that differs from the replayer's "
+                                 "reconstruction: %s" % (e["sysname"], e["sysidx"], r.start, r.op, diff[:6]))
+    return ok, inconclusive, points
+
+
+def binding_demo(ctx, traces, dtraces, matched, mode):
+    """The trace specs must reject corrupted copies of accepted real traces."""
+    clean = [t for t in traces if t["header"]["index"] == "ok" and t["header"]["pre_t"] and
+             any(e["ev"] == "fresh" for e in t["events"]) and
+             t["header"]["kind"] in ("put_tag", "tag_delete", "copy", "import", "put_index") and
+             not set(t["header"]["pre_t"]) <= set(t["header"]["tgt"])]
+    if not clean:
+        raise vlib.ToolError("no trace to demonstrate the binding of (P)")
+    base = clean[0]
+    keep = next(t for t in base["header"]["pre_t"] if t not in base["header"]["tgt"])
+
+    def mut(name, fn):
+        m = copy.deepcopy(base)
+        m["id"] = name
+        for e in m["events"]:
+            if e["ev"] == "end":
+                e["trace"] = name
+        fn(m)
+        return m
+
+    def first(m, kind):
+        return next(i for i, e in enumerate(m["events"]) if e["ev"] == kind)
+
+    def set_ev(kind, **kw):
+        def f(m):
+            m["events"][first(m, kind)].update(kw)
+        return f
+
+    def retag(kind, tf, df):
+        def f(m):
+            e = m["events"][first(m, kind)]
+            i = e[tf].index(keep)
+            e[df][i] = "Mwrong"
+        return f
+
+    def drop(m):
+        del m["events"][first(m, "sys")]
+
+    def untag_end(m):
+        e = m["events"][first(m, "end")]
+        for tf, df in (("tag_t", "tag_d"), ("res_t", "res_d")):
+            e[tf], e[df] = [], []
+    muts = [
+        (mut("demo-badfile", set_ev("sys", badfiles=["L1"])), "O1"),
+        (mut("demo-torn-index", set_ev("sys", index="torn")), "O2-index"),
+        (mut("demo-retag", retag("sys", "tag_t", "tag_d")), "O3"),
+        (mut("demo-dangling", set_ev("sys", dangling=[keep])), "O4"),
+        (mut("demo-fresh-unreadable", set_ev("fresh", tl="err")), "O2-readable"),
+        (mut("demo-fresh-retag", retag("fresh", "res_t", "res_d")), "O3-fresh"),
+        (mut("demo-drop-syscall", drop), "seq"),
+        (mut("demo-end-tags-lost", untag_end), "O3"),
+    ]
+    viol = validate_traces(ctx, [m for m, _ in muts], "demo")
+    for i, (m, want) in enumerate(muts):
+        got = set(o for ti, ei, obls in viol if ti == i for o in obls)
+        if want not in got:
+            raise vlib.ToolError("binding demo %s: (P) did not report %s (reported %s): the trace spec does not bind"
+                                 % (m["id"], want, sorted(got)))
+    # (D): a recorded call sequence with two calls swapped must not be a behaviour of LayoutFS (shown on a
+    # sequence that (D) matches; when the code has drifted from (D) everywhere there is nothing to show it on)
+    d0 = next((d for d in dtraces if d["id"] in matched and d["header"]["kind"] == "put_tag" and
+               any(e.get("call") == "rename" and e.get("cls") == "index" for e in d["events"])), None)
+    if d0 is None:
+        return len(muts)
+    dm = copy.deepcopy(d0)
+    dm["id"] = "demo-d-swap"
+    i = next(i for i, e in enumerate(dm["events"]) if e.get("call") == "rename" and e.get("cls") == "index")
+    dm["events"][i], dm["events"][i - 1] = dm["events"][i - 1], dm["events"][i]
+    done, drift = validate_dtraces(ctx, [d0, dm], mode, "demo-d")
+    if d0["id"] not in done or dm["id"] in done:
+        raise vlib.ToolError("binding demo: LayoutFSDTrace accepted a call sequence with rename(index.json) before "
+                             "the write of its temp file (or rejected the original)")
+    return len(muts) + 1
+
+
+CONCURRENT = ("copy", "copy_ref")
+S4_SIG = re.compile(r"[a-z_]+/.*:openat_trunc:marker\[marker=empty,index=ok\]")
+REFCOPY_SIG = re.compile(r"copy_ref/O6-referrers@retry:.*")
+
+
 def run(ctx):
     rng = random.Random(ctx.seed)
     ctx.load_known = _known_loader(ctx)
     env = prepare(ctx)
+    thorough = ctx.thorough
     scenarios = list(SCENARIOS)
+    if thorough:
+        # more interleavings of the concurrent operations
+        scenarios += [sc for sc in SCENARIOS if sc[1].split(":")[0] in CONCURRENT] * 3
     if ctx.replay:
         with open(ctx.replay) as f:
             rp = json.load(f)["replay"]
@@ -912,43 +1044,164 @@ def run(ctx):
         if not r.res["ok"]:
             raise vlib.ToolError("scenario %s %s does not run on this tree (uninterrupted operation failed: %s)"
                                  % (r.start, r.op, r.res["err"]))
-    budget = None if (ctx.thorough or ctx.replay) else 1200
+    mode = marker_mode(runs)
+    # really kill the process at sampled system calls and compare what is left with the replayer's reconstruction
+    kill_ok, kill_inconclusive, kill_points = (0, 0, []) if ctx.replay else kill_confirm(env, runs, rng, 40 if ctx.thorough else 10)
+    import time
+    tick = [time.time()]
+
+    def lap(what):
+        now = time.time()
+        vlib.log("C07: %-40s %6.1fs" % (what, now - tick[0]))
+        tick[0] = now
+    lap("%d operations under strace" % len(runs))
+
+    # 1. the design spec, exhaustively, against the property monitor
+    mc = []
+    if not ctx.replay:
+        if mode == "rewrite":
+            mc.append(ctx.tlc("LayoutFSMC", "C07_mc_quick.cfg", timeout=900,
+                              label="60 scenarios, crash at every point outside the marker rewrite window + retry"))
+            s4 = ctx.tlc("LayoutFSMC", "C07_mc_s4.cfg", allow_violation=True, timeout=900,
+                         label="populated layouts, crash inside the marker rewrite window (counterexample expected: S4)")
+            mc.append(s4)
+        else:
+            mc.append(ctx.tlc("LayoutFSMC", "C07_mc_fixed.cfg", timeout=900,
+                              label="60 scenarios, marker written only when missing/unreadable, crash anywhere + retry"))
+            s4 = None
+        rc_ = ctx.tlc("LayoutFSMC", "C07_mc_refcopy%s%s.cfg" % ("" if thorough else "q", "" if mode == "rewrite" else "_fixed"),
+                      allow_violation=True, timeout=900,
+                      label="image copy with referrers (counterexample expected: interrupted referrer copy not repaired)")
+        mc.append(rc_)
+        if thorough:
+            mc.append(ctx.tlc("LayoutFSMC", "C07_mc_t2.cfg" if mode == "rewrite" else "C07_mc_t2_fixed.cfg", timeout=2400,
+                              label="as quick, the retry may be killed as well (two crashes)"))
+            mc.append(ctx.tlc("LayoutFSMC", "C07_sim_ix.cfg" if mode == "rewrite" else "C07_sim_ix_fixed.cfg", timeout=1200,
+                              simulate="num=%d" % 4000, depth=400, extra=["-seed", str(ctx.seed)],
+                              label="copy of a two-image index, one goroutine per blob: random behaviours (BFS does not finish)"))
+            if mode == "rewrite":
+                mc.append(ctx.tlc("LayoutFSMC", "C07_mc_fixed.cfg", timeout=900,
+                                  label="design of the proposed repair (findings/C07-1.patch): crash anywhere + retry"))
+    states = sum(r["distinct"] for r in mc)
+    trans = sum(r["generated"] for r in mc)
+    lap("TLC on the design spec (%d runs)" % len(mc))
+
+    # 2. crash states of the real code -> facts -> (P)
+    budget = None if (thorough or ctx.replay) else 1500
     selected, nclasses = select_points(runs, rng, budget)
     probes, dirs = probe_all(env, runs, selected)
     traces = [build_trace(env, r, probes, dirs, selected) for r in runs]
     byid = {r.sid: r for r in runs}
-
+    lap("probes + retries of %d crash states" % len(selected))
     viol = validate_traces(ctx, traces, "impl")
+    lap("TLC validation against (P)")
     rejected = set()
+    sigs = {}
     for ti, ei, obls in viol:
         t = traces[ti]
         rejected.add(ti)
-        ev = t["events"][ei]
         for obl in obls:
-            sig = signature(t, ei, obl)
-            k = ev.get("k")
-            what = "%s violated in state %s of %s on start state %s: %s" % (
-                obl, ("after the operation returned" if ev["ev"] == "end" else
-                      "%s(k=%d, after %s of %s)" % (ev["ev"], k, t["events"][ei if ev["ev"] == "sys" else ei - 1].get("call", "?"),
-                                                    byid[t["id"]].events[k - 1]["path"])),
-                t["scenario"]["op"], t["scenario"]["start"],
-                json.dumps({x: ev[x] for x in ("marker", "index", "tag_t", "tag_d", "badfiles", "dangling", "tl", "res_t",
-                                               "res_d", "unres", "broken", "refs", "has", "untagged") if x in ev}))
-            ctx.report(sig, what, {"scenario": t["scenario"], "header": t["header"], "rejected_event": ev,
-                                   "crash_point": k, "notes": byid[t["id"]].notes.get(k, {}),
-                                   "syscalls": [[e["call"], e["path"]] for e in byid[t["id"]].events[:(k or 0)]],
-                                   "cmd": "tools/check C07 --replay <this file>"})
+            sigs.setdefault(signature(t, ei, obl), []).append((ti, ei, obl))
+    known_re = [re.compile(kf["signature"]) for kf in ctx.load_known().get("findings", [])
+                if kf.get("property") == "C07" and kf.get("status") == "known"]
+    groups_reported = set()
+    for sig in sorted(sigs, key=lambda s: sigs[s][0]):
+        ti, ei, obl = sigs[sig][0]
+        t, ev = traces[ti], traces[ti]["events"][ei]
+        k = ev.get("k")
+        r = byid[t["id"]]
+        if not any(kr.fullmatch(sig) for kr in known_re):
+            # one replay file per (operation kind, crash point class); every signature stays in the evidence
+            group = sig.split("/")[0] + "|" + (sig.split("@", 1)[1].split(":", 1)[-1])
+            if group in groups_reported or len(groups_reported) >= 8:
+                continue
+            groups_reported.add(group)
+        where = "after the operation returned" if ev["ev"] == "end" else \
+            "%s state after mutating call %d (%s %s)" % ({"sys": "crash", "fresh": "crash", "retry": "retried"}[ev["ev"]], k,
+                                                         r.events[k - 1]["call"], r.events[k - 1]["path"])
+        what = "%s violated %s of %s on start state %s (%d x): %s" % (
+            obl, where, t["scenario"]["op"], t["scenario"]["start"], len(sigs[sig]),
+            json.dumps({x: ev[x] for x in ("marker", "index", "tag_t", "tag_d", "badfiles", "dangling", "tl", "res_t",
+                                           "res_d", "unres", "broken", "refs", "has", "untagged") if x in ev}))
+        ctx.report(sig, what, {"scenario": t["scenario"], "header": t["header"], "rejected_event": ev,
+                               "crash_point": k, "notes": r.notes.get(k, {}),
+                               "syscalls": [[e["call"], e["path"]] for e in r.events[:(k or len(r.events))]],
+                               "cmd": "tools/check C07 --replay <this file>"})
     ncrash = sum(len(r.events) for r in runs)
     cov = {
-        "states": 0, "transitions": 0,
+        "states": states, "transitions": trans,
         "traces_validated_against_impl": len(traces) - len(rejected),
         "traces_total": len(traces), "traces_rejected": len(rejected),
         "crash_states": ncrash, "crash_states_probed_and_retried": len(selected),
         "crash_point_classes": nclasses,
         "evaluations": ncrash + 2 * len(selected) + len(traces),
-        "exhaustive": budget is None,
+        "distinct_nontrivial": nclasses,
+        "rule": "an evaluation = one observed directory state (crash state after a prefix of the mutating system calls of "
+                "one real operation, the same state read by a fresh client, the state after the operation was repeated "
+                "on it, or the state at the return) judged by (P) under TLC; distinct = distinct (operation kind, call, "
+                "target file class, marker state, index state) crash points",
+        "exhaustive": len(selected) == ncrash,
+        "marker_mode_observed": mode,
+        "sigkill_confirmed": kill_ok, "sigkill_inconclusive": kill_inconclusive, "sigkill_points": kill_points[:10],
+        "violating_states": len(viol), "violation_signature_count": len(sigs),
+        "all_violation_signatures": sorted(sigs),
+        "scenarios": len(scenarios), "start_states": STATES,
+        "entry_points": ["regclient.BlobPut", "regclient.ManifestPut (tag, digest, child, with subject)", "regclient.TagDelete",
+                         "regclient.ManifestDelete", "regclient.Close (ocidir GC)", "regclient.ImageCopy (+ImageWithReferrers)",
+                         "regclient.ImageImport", "fresh client: TagList, ManifestGet, BlobGet, ReferrerList"],
     }
-    return "model_checking", cov, []
+    if ctx.replay:
+        return "model_checking", cov, []
+
+    # 3. consistency of the design spec's counterexamples with the real code (never a verdict by itself)
+    seen_s4 = any(S4_SIG.fullmatch(s) for s in sigs)
+    seen_rc = any(REFCOPY_SIG.fullmatch(s) for s in sigs)
+    cov["design_counterexamples"] = {
+        "marker_rewrite_window": {"tlc": (s4["violated"] if s4 else None), "reproduced_on_real_code": seen_s4},
+        "referrer_copy_retry": {"tlc": rc_["violated"], "reproduced_on_real_code": seen_rc},
+    }
+    if s4 is not None and not s4["violated"]:
+        raise vlib.ToolError("LayoutFS with MarkerMode=rewrite and crashes in the marker window satisfies the property: "
+                             "the model does not contain the hazard it was written to expose")
+    for name, tl, real in (("marker rewrite window", s4 and s4["violated"], seen_s4), ("referrer copy", rc_["violated"], seen_rc)):
+        if bool(tl) != bool(real):
+            vlib.log("C07: design spec and code disagree on '%s' (TLC: %s, real code: %s) - model drift, not a verdict"
+                     % (name, tl, real))
+            cov.setdefault("model_drift", []).append(name)
+
+    # 4. binding of (D): the recorded call sequences are behaviours of LayoutFS
+    dts = [dtrace_of(env["ab"], r) for r in runs]
+    if not thorough:
+        dts = [d for d in dts if not (d["header"]["kind"] in CONCURRENT and d["header"]["o"] == "IX")]
+    done, drift = validate_dtraces(ctx, dts, mode, "dtrace")
+    lap("TLC validation against (D)")
+    cov["design_traces_matched"] = len(done)
+    cov["design_traces_total"] = len(dts)
+    cov["drift"] = len(drift)
+    if drift:
+        det = {}
+        for sid, i in drift.items():
+            d = next(x for x in dts if x["id"] == sid)
+            det["%s %s" % (byid[sid].start, byid[sid].op)] = {"unmatched_event_index": i, "event": d["events"][min(i, len(d["events"]) - 1)]}
+        cov["drift_detail"] = det
+        vlib.log("C07: %d recorded call sequences are not behaviours of LayoutFS (drift, not a violation): %s"
+                 % (len(drift), json.dumps(det)[:1500]))
+
+    # 6. binding demo
+    cov["binding_demos_rejected"] = binding_demo(ctx, traces, dts, done, mode)
+    t0 = traces[0]
+    cov["samples"] = [{"id": t0["id"], "scenario": t0["scenario"], "header": t0["header"], "events": t0["events"][:6]},
+                      {"id": traces[-1]["id"], "scenario": traces[-1]["scenario"], "events": traces[-1]["events"][-3:]}]
+    assumptions = [
+        "crash = death of the writing process (SIGKILL) between two system calls; no power loss, no page-cache loss "
+        "(missing fsync is out of scope, as in the statement)",
+        "a system call is atomic; with concurrent goroutines the order of completion in the strace log is taken as the order of effect",
+        "ideal hash in (D); the independent checker re-hashes every digest-named file with hashlib",
+        "bounds: content catalogue of 17 objects (3 images sharing a layer, a two-image index, two referrers), 8 start states, "
+        "%d operation scenarios; one crash + retry (two crashes in the thorough model run)" % len(SCENARIOS),
+        "the intended end state is derived from the operation's arguments by (P), not from what the code did",
+    ]
+    return "model_checking", cov, assumptions
 
 
 # ----------------------------------------------------------------------------------------------
@@ -1000,7 +1253,7 @@ def validate_dtraces(ctx, dtraces, mode, label):
     out = res["output"]
     done = set(re.findall(r'<<"DONE", "([^"]*)">>', out))
     hw = {}
-    m = re.search(r'<<"HIGHWATER",(.*?)>>', out, re.S)
+    m = re.search(r'<<\s*"HIGHWATER",(.*?)>>\s*\n', out, re.S)
     if m:
         for a, b in re.findall(r"(\d+) :> (\d+)", m.group(1)):
             hw[int(a)] = int(b)
